@@ -102,6 +102,7 @@ type FnCtx struct {
 	relied      map[string]bool // properties whose clauses are assumed (not asserted) in this run
 	rangeIdx    []*types.Var
 	staticRecvName string
+	siteOrd     map[*ast.CallExpr]map[string]int
 }
 
 // isOpaqueStruct: library structs whose fields are never inspected (time.Time, sync.Mutex, ...).
